@@ -49,9 +49,21 @@ def main(tier, replay, t0):
         for x in c.cfgs:
             g = c.gen[x["id"]]
             opt = x["opt"]
-            if g.get("result") != "ok":
-                continue
             base = {"case_id": c.id, "wgsl": c.wgsl, "options": opt}
+            if g.get("result") != "ok":
+                # documented refusals: a runtime-array struct without encase, or with the
+                # bytemuck switch that applies to it (host-shareable); anything else is an
+                # option changing what it does not document
+                rts_structs = [s for s in spec.emitted_structs()
+                               if W.has_runtime_array(spec.structs[s])]
+                documented = bool(rts_structs) and (not opt.get("en") or opt.get("bh"))
+                if g.get("result") == "panic" and not documented:
+                    which = "+".join(k for k in ("bv", "bh", "en", "se") if opt.get(k)) or "none"
+                    viol.append(Violation("option-set-refused", "%s:%s" % (
+                        "rts" if rts_structs else "plain", which),
+                        "generation panics for option set %s (%s) although no documented "
+                        "restriction applies" % (x["id"], g.get("panic")), base))
+                continue
             mv = opt.get("mv", "rust")
             if g.get("proj_types_sha"):
                 projs_all.setdefault(g["proj_types_sha"], []).append(x["id"])
@@ -90,6 +102,20 @@ def main(tier, replay, t0):
                 want_asserts = host and opt.get("bh", False)
                 mine = [a for a in asserts if ("< %s >" % s) in a or ("(%s ," % s) in a
                         or (" %s ," % s) in a]
+                if want_asserts and mine:
+                    # exactly: one size assertion and one offset assertion per field
+                    sd = spec.structs[s]
+                    has_size = any("size_of" in a and ("< %s >" % s) in a for a in mine)
+                    missing = [m["name"] for m in sd.data_members()
+                               if not any("offset_of" in a and ("(%s , %s)" % (s, m["name"])) in a
+                                          for a in mine)]
+                    if not has_size or missing:
+                        viol.append(Violation("layout-assertions-incomplete", "%s:%s" % (
+                            role, "size" if not has_size else "offset"),
+                            "struct %s with options %s: %s" % (
+                                s, x["id"], "size assertion missing" if not has_size else
+                                "no offset assertion for field(s) %s" % missing),
+                            dict(base, asserts=mine[:6])))
                 if bool(mine) != want_asserts:
                     viol.append(Violation("layout-assertions", "%s:%s" % (
                         role, "missing" if want_asserts else "unexpected"),
